@@ -567,6 +567,22 @@ namespace world
         return sp->getValidSegmentCountFactor() * (unsigned)std::ceil(sp->distance(a, b) / len);
     }
 
+    // largest spacing (in the space's own distance) between two checks of a validated motion, from the same rule: a
+    // compound space takes the maximum count over its components and ignores its own count factor (the factor is not
+    // propagated to components), so its spacing is bounded by the weighted sum of the components' spacings
+    inline double resolutionLength(const ob::StateSpace *sp)
+    {
+        if (sp->isCompound() && sp->getType() != ob::STATE_SPACE_REEDS_SHEPP && sp->getType() != ob::STATE_SPACE_DUBINS)
+        {
+            const auto *cs = sp->as<ob::CompoundStateSpace>();
+            double l = 0;
+            for (unsigned i = 0; i < cs->getSubspaceCount(); i++)
+                l += cs->getSubspaceWeight(i) * resolutionLength(cs->getSubspace(i).get());
+            return l;
+        }
+        return sp->getLongestValidSegmentFraction() * sp->getMaximumExtent() / std::max(1u, sp->getValidSegmentCountFactor());
+    }
+
     struct SegmentVerdict
     {
         double worstRunSteps = 0;  // longest invalid stretch, in resolution steps of its motion
@@ -609,7 +625,7 @@ namespace world
             // space's resolution length (longest valid segment / count factor, the largest spacing between two
             // checks), an absolute length: a path made of many tiny motions (intermediate states) can legitimately
             // have one of them lie mostly inside an obstacle that hides between two checks of the validated motion.
-            double resLen = w.ss->getLongestValidSegmentLength() / std::max(1u, w.ss->getValidSegmentCountFactor());
+            double resLen = resolutionLength(w.ss.get());
             double steps = maxrun == 0 ? 0.0 : (double)(maxrun - 1) / N * w.ss->distance(v[i], v[i + 1]) / resLen;
             if (steps > r.worstRunSteps)
             {
